@@ -636,3 +636,17 @@ mod sm9_key_test {
         }
     }
 }
+
+#[cfg(gm_rs_verif)]
+pub mod verif_key {
+    use crate::u256::U256;
+    pub fn hash1(id: &[u8], hid: u8) -> U256 {
+        super::sm9_u256_hash1(id, hid)
+    }
+    pub fn hash2(data: &[u8], wbuf: &[u8]) -> U256 {
+        super::sm9_u256_hash2(data, wbuf)
+    }
+    pub fn kdf(z: &[u8], klen: usize) -> Vec<u8> {
+        super::kdf(z, klen)
+    }
+}
